@@ -1,12 +1,13 @@
 """C03 — optimize() terminates within the evaluation budget and counts honestly."""
 from harness import budget as B, runlevel as R, skel as S
 
-PROPS = ["Props/C03.v", "Props/C03budget.v"]
+PROPS = ["Props/C03.v", "Props/C03budget.v", "Props/C13hist.v"]
 THEOREMS = ["C03_terminates", "C03_budget", "C03_maxiter", "C03_func_count_exact", "C03_msg_truthful", "C03_finished_is_final",
             "C03_budget_model_is_source", "C03_skeleton_reads_the_budget", "C03_total_calls_within_user_budget", "C03_reserve_exact",
             "C03_det_reserves_nothing", "C03_noise_level_rule", "C03_design_size_bounds", "C03_budget_sufficient_det",
             "C03_budget_sufficient_noisy", "C03_budget_message_in_user_terms", "C05_resampling_spends_the_reserve",
-            "C03_design_exceeds_budget_refuted", "C03_negative_nfs_exceeds_budget_refuted", "C03_budget_message_unspent_reserve_refuted"]
+            "C03_design_exceeds_budget_refuted", "C03_negative_nfs_exceeds_budget_refuted", "C03_budget_message_unspent_reserve_refuted",
+            "C03_stall_message_in_history_terms"]
 TRANSLATORS = ["budget"]
 LEVEL = "proof"
 RULE = ("real BADS runs over a panel (D 1-4; deterministic/auto/declared/specified noise; boxes sym/tight/log/unbounded/mixed; "
